@@ -21,20 +21,50 @@ for f in $REPO/compat/libc/string/*.c; do
     IGC_CFLAGS="-fsanitize=thread -fno-omit-frame-pointer" IGC_OPT=-O1 par igc_one $BUILD/shim $o $f
     TOBJS="$TOBJS $o"
 done
+# BUILD MATRIX: the same sources the way the project's own build compiles them (make.py: plain gcc -O3, no -fno-builtin,
+# no -fno-tree-loop-distribute-patterns; also -O2 and -Os), with plain char unsigned (ARM/PowerPC/RISC-V), and by the
+# other compiler. Symbols are renamed after compilation, so gcc sees - and pattern-matches - the real names.
+variant() { # name cc opt mode cflags
+    local v=$1 f o
+    for f in $REPO/compat/libc/string/*.c; do
+        o=$BUILD/${v}_$(basename $f .c).o
+        IGC_CC=$2 IGC_OPT=$3 IGC_MODE="$4" IGC_CFLAGS="$5" par igc_one $BUILD/shim $o $f
+        eval "VOBJS_$v=\"\$VOBJS_$v $o\""
+    done
+}
+variant o2n gcc -O2 "" ""
+variant osn gcc -Os "" ""
+variant o3u gcc -O3 "" "-funsigned-char"
+variant clang clang -O2 "-fno-builtin" ""
+# a caller of the library compiled against the BUNDLED headers at -O2, with and without -fno-builtin; prefixed and
+# resolved with the main object set (its calls bind to the repository's routines), linked into every non-TSan executable
+caller() { # out pfx extra-flags
+    gcc -c -O2 -g -w $3 -DPFX=$2 -isystem $REPO/compat/libc/include -I$REPO $H/c08_caller.c -o $1 && objcopy --prefix-symbols=igc_ $1
+}
+par caller $BUILD/caller.o caller_ ""
+par caller $BUILD/callernb.o callernb_ "-fno-builtin"
+COBJS="$BUILD/caller.o $BUILD/callernb.o"
 par g++ -std=c++17 -O1 -g -fsanitize=thread -fno-omit-frame-pointer -I$MC -I$H -c $H/c08_reentrancy.cpp -o $BUILD/h_tsan.o
 par g++ -std=c++17 -O2 -g -I$MC -c $MC/sched/sched.cpp -o $BUILD/sched.o
 CXX="g++ -std=c++17 -O2 -g -fno-builtin -I$MC -I$H"
 for t in c08_common c08_str c08_mem c08_tok; do par $CXX -c $H/$t.cpp -o $BUILD/$t.o; done
 par g++ -std=c++17 -O2 -c -I$MC $MC/mc.cpp -o $BUILD/mc.o
 parwait
-igc_resolve $OBJS
+igc_resolve $OBJS $COBJS
 igc_resolve $TOBJS
 # every statement-listed function must come from the repository, none may be left undefined
 for fn in memcpy memmove memset memcmp memchr memrchr strlen strnlen strcpy strncpy strlcpy strcat strncat strcmp strncmp \
           strcasecmp strncasecmp strchr strrchr strchrnul strstr strcasestr strspn strcspn strpbrk strtok strtok_r strdup strndup strlwr strupr; do
     nm $OBJS | grep -q " [TW] igc_$fn\$" || { echo "igc_$fn is not defined by the repository sources"; exit 1; }
 done
-g++ $BUILD/c08_common.o $BUILD/c08_str.o $BUILD/c08_mem.o $BUILD/c08_tok.o $OBJS $BUILD/mc.o -o $BUILD/c08
+g++ $BUILD/c08_common.o $BUILD/c08_str.o $BUILD/c08_mem.o $BUILD/c08_tok.o $OBJS $COBJS $BUILD/mc.o -o $BUILD/c08
 g++ -fsanitize=thread $BUILD/h_tsan.o $TOBJS $BUILD/sched.o $BUILD/mc.o -ldl -lpthread -o $BUILD/c08_tsan
 echo "strings $BUILD/c08" > $BUILD/runs.txt
 echo "reentrancy $BUILD/c08_tsan" >> $BUILD/runs.txt
+SEL=str_large,mem_large,strtok_large,str_history,mem_history,memcpy_every_alignment,memset_every_value,callers_recompute_after_modification
+for v in o2n osn o3u clang; do
+    eval "vo=\$VOBJS_$v"
+    igc_resolve $vo
+    g++ $BUILD/c08_common.o $BUILD/c08_str.o $BUILD/c08_mem.o $BUILD/c08_tok.o $vo $COBJS $BUILD/mc.o -o $BUILD/c08_$v
+    echo "strings_$v $BUILD/c08_$v --only $SEL" >> $BUILD/runs.txt
+done
